@@ -5,7 +5,7 @@ hashed lease secrets on the newest container schemas, agreement of the lease
 struct formats with their pack/unpack sites and the hash width, hashing of candidate secrets, the lease
 slot layout and its count/offset field accessors, renewal independent of available space, slot-numbered
 lease enumeration, mutable slot occupancy (empty marker, where a new lease may go), the intact move of the
-extra-lease block when a mutable container grows, that a matched renew secret never ends in 'no such lease', and that
+extra-lease block by whichever function relocates it (container growth and any sibling), that a matched renew secret never ends in 'no such lease', and that
 a stored (hashed) lease never reaches the serializer again as a plain lease (no second hashing of its secrets).
 DESIGN.md section 5, C25.  (Lease isolation from data writes is C23.2/C23.6.)"""
 from sa.h import *
@@ -49,11 +49,15 @@ EXPLANATION = (
     "== 0 and otherwise returns that record; _get_first_empty_lease_slot returns only a slot whose _read_lease_record(f, slot) is None "
     "held in the same iteration; MutableShareFile.add_lease writes the given lease, on every normal path, to the slot "
     "_get_first_empty_lease_slot found (checked is not None) or to slot _get_num_lease_slots(f); "
-    "(10) leases survive container growth: MutableShareFile._change_container_size reads count-field-width + num_extra_leases * LEASE_SIZE "
+    "(10) leases survive a container resize: every function that relocates the extra-lease block - found by role: whoever calls "
+    "_write_extra_lease_offset, i.e. MutableShareFile._change_container_size (growth) and any sibling (a shrinking or compacting path), "
+    "whatever its name and whatever it calls the file object; a method that stores that header field without the helper is reported as "
+    "not decided - reads count-field-width + num_extra_leases * LEASE_SIZE "
     "bytes immediately after seek(_read_extra_lease_offset(f)) and before any modification of the file, writes exactly those bytes at the "
-    "position it hands to _write_extra_lease_offset, writes nothing afterwards that may overlap the copy (only the fixed header fields, or a "
-    "fill of at most new - position bytes: old and new block overlap when the container grows by less than the block size), and no call that "
-    "modified the file returns without the copy and the header update; "
+    "position it hands to _write_extra_lease_offset, writes nothing afterwards that may overlap the copy (only the fixed header fields, a "
+    "fill of at most new - position bytes in front of it, a write positioned at max(.., new + block size, ..) behind it, or a truncate at "
+    "exactly new + block size: old and new block overlap when the offset moves by less than the block size, in either direction), and no "
+    "call that modified the file returns without the copy and the header update; "
     "(11) renew_lease (both containers) reaches no raise statement once some lease's is_renew_secret(renew_secret) held (boolean flag locals "
     "are followed), whether or not the expiry had to move - otherwise add_or_renew_lease would add a duplicate for a known secret; "
     "(12) the hashed representation is closed - a stored lease never returns to the serializer as a plain LeaseInfo, whose already-hashed "
@@ -70,7 +74,8 @@ EXPLANATION = (
     "part of the stated property); the values of EXTRA_LEASE_OFFSET / ShareFile._lease_offset and which schema an existing container "
     "is opened with (edits there crash on first use in the sweep, no structural rule); what cancel_lease reports, returns, unlinks "
     "and the content of its blank record (cancellation is not part of the stated property); which shares get_shares / "
-    "_iter_share_files enumerate for a storage index.")
+    "_iter_share_files enumerate for a storage index; whether the offset a relocator moves the extra-lease block to lies behind the "
+    "share data (only that the block arrives intact where the header points).")
 TECHNIQUE = "static analysis: CFG gate rules, keyword-argument sweep, constant folding of struct formats, schema tables"
 
 SF = "storage.immutable:ShareFile"
@@ -1712,16 +1717,18 @@ def run(ctx: Context):
             r.violation(ad, ad.loc(), "MutableShareFile.add_lease can return normally without having written the lease "
                         "(path: %s)" % w.brief(), w)
 
-    # -- 10. container growth: the extra-lease block is moved intact --------------------------------------------------
-    with ctx.rule("C25.10", "R6/R1", "leases survive container growth: MutableShareFile._change_container_size reads the whole "
+    # -- 10. container resizing: the extra-lease block is moved intact ------------------------------------------------
+    # The functions held to this are found by their ROLE, not by name: every function of the package that repoints the
+    # header's extra-lease offset (calls _write_extra_lease_offset) relocates the block - _change_container_size (growth) and
+    # any sibling (a shrinking / compacting path) alike.
+    with ctx.rule("C25.10", "R6/R1", "leases survive a container resize: every function that repoints the header's extra-lease "
+                  "offset (MutableShareFile._change_container_size and any sibling that calls _write_extra_lease_offset) reads the whole "
                   "extra-lease block (count field + num_extra_leases records) at the old extra-lease offset before it modifies the "
                   "file, writes those bytes where it points the header to, and nothing that may overlap the new block is written "
-                  "after the copy (the old and new blocks overlap whenever the container grows by less than the block size)",
+                  "or cut off after the copy (the old and new blocks overlap whenever the offset moves by less than the block size)",
                   expected=3) as r:
-        cs = idx.func(MSF + "._change_container_size")
-        fp = first_positional_params(cs)[0]
-        cfg = cs.cfg()
-        fnm = FlowNorm(cs)
+        ccs = idx.func(MSF + "._change_container_size")
+        msf = idx.cls(MSF)
         rn_ = idx.func(MSF + "._read_num_extra_leases")
         un = [c for c in calls_in_func(rn_, "unpack") if call_name(c) == "struct.unpack"]
         cfmt = _fold(fo, un[0].args[0], rn_.module, rn_.cls) if len(un) == 1 else None
@@ -1730,166 +1737,236 @@ def run(ctx: Context):
         CW = _struct.calcsize(cfmt)
         NEUTRAL = ("flush", "tell", "fileno")
         HEADER_WRITERS = ("_write_extra_lease_offset", "_write_data_length")
+        helper = idx.func(MSF + "._write_extra_lease_offset")
 
-        def file_calls(n):
-            return [c for c in node_calls(n) if (isinstance(c.func, ast.Attribute) and attr_path(c.func.value) == fp)
-                    or any(attr_path(a) == fp for a in c.args) or any(attr_path(k.value) == fp for k in c.keywords)]
-
-        def direct(n, kinds):
-            return [c for c in file_calls(n) if isinstance(c.func, ast.Attribute) and attr_path(c.func.value) == fp and c.func.attr in kinds]
-
-        def handed(n):
-            """self.<helper>(f, ..) calls that are given the file"""
-            return [c for c in file_calls(n) if not (isinstance(c.func, ast.Attribute) and attr_path(c.func.value) == fp)]
-
-        def mutates(n):
-            return bool(direct(n, ("write", "writelines", "truncate"))) or any(not call_tail(c).startswith("_read") for c in handed(n))
-
-        # file position on entry to each node: id of the fp.seek(E) node that set it and was not disturbed since, else -1
-        def tr_pos(n, lab, nxt, st):
-            if lab == "exc":
-                return None
-            fc = file_calls(n)
-            if not fc or all(c in direct(n, NEUTRAL) for c in fc):
-                return st
-            sk = [c for c in direct(n, ("seek",)) if len(c.args) == 1 and not c.keywords]
-            if len(sk) == 1:
-                inner = {id(x) for x in ast.walk(sk[0].args[0])}
-                if all(c is sk[0] or id(c) in inner for c in fc):
-                    return n.id
-            return -1
-        pvis, ppar = explore(cfg, -1, tr_pos)
-        r.count(len(pvis))
-
-        def positions(n):
-            """set of polynomials (None = unknown) the file may be positioned at on entry to n"""
-            out = set()
-            for (nid, st) in pvis:
-                if nid == n.id:
-                    if st < 0:
-                        out.add(None)
-                    else:
-                        sn = cfg.nodes[st]
-                        try:
-                            out.add(fnm.at(sn).poly(direct(sn, ("seek",))[0].args[0]))
-                        except Exception:
-                            out.add(None)
-            return out
-
-        def show(ps):
-            return ", ".join(sorted("an unknown position" if p is None else str(p) for p in ps)) or "nowhere"
-
-        # the copy: a write of bytes that an fp.read(..) of this function produced
-        copies, foreign = [], []
-        for n in cfg.nodes:
-            for c in direct(n, ("write", "writelines", "truncate")):
-                a = c.args[0] if (c.func.attr == "write" and len(c.args) == 1 and not c.keywords) else None
-                dn, v = def_of(fnm, n, a) if a is not None else (None, None)
-                if isinstance(v, ast.Call) and isinstance(v.func, ast.Attribute) and v.func.attr == "read" and attr_path(v.func.value) == fp:
-                    rnode = dn if dn is not None else n
-                    copies.append((n, c, rnode, v))
-                else:
-                    foreign.append((n, c))
-        if not copies:
-            raise AnchorVanished("_change_container_size: no %s.write(<bytes read from %s>) - the extra-lease block is not copied" % (fp, fp))
-        upd = [(n, c) for n in cfg.nodes for c in self_calls(n, "_write_extra_lease_offset") if len(c.args) == 2 and attr_path(c.args[0]) == fp]
-        if not upd:
-            raise AnchorVanished("_change_container_size: no self._write_extra_lease_offset(%s, ..)" % fp)
-        for (U, uc) in upd:
-            r.site(cs, uc, "header update")
-        OLD = P("self._read_extra_lease_offset(%s)" % fp)
-        SIZE = P("%d + self._read_num_extra_leases(%s) * self.LEASE_SIZE" % (CW, fp))
-        muts = [n for n in cfg.nodes if mutates(n)]
-        for (W, wc, Rn, rc) in copies:
-            r.site(cs, rc, "block read")
-            r.site(cs, wc, "block copy")
-            # (a) the block that is saved is the whole block, taken from where the header says it is
-            multi = len(file_calls(Rn)) != 1 or len(file_calls(W)) != 1
-            r.require(not multi, cs, cs.loc(rc), "the block read / copy is combined with other file accesses in one statement")
-            if multi:
+        # who relocates: the callers of the header-offset writer ...
+        relocators = []
+        for site in real_sites(cg, "_write_extra_lease_offset"):
+            f_ = site.fn
+            if f_.module.name.startswith("allmydata.test") or f_ is helper:
                 continue
-            try:
-                got = str(fnm.at(Rn).poly(rc.args[0])) if len(rc.args) == 1 and not rc.keywords else "?"
-            except Exception:
-                got = "?"
-            r.require(got == SIZE, cs, cs.loc(rc), "the saved extra-lease block is %s bytes long, not the count field plus every record "
-                      "(%d + num_extra_leases * LEASE_SIZE): the leases beyond it do not survive the move" % (
-                          src(cs, rc.args[0]) if rc.args else "all remaining", CW))
-            rp = positions(Rn)
-            r.require(bool(rp) and all(q is not None and str(q) == OLD for q in rp), cs, cs.loc(rc),
-                      "the extra-lease block is read at %s, not at the extra-lease offset recorded in the header "
-                      "(seek(self._read_extra_lease_offset(%s)) immediately before): other bytes are moved in place of the leases" % (show(rp), fp))
-            # (b) ... before anything in the file is modified
-            for (t, w) in find_path_avoiding(cfg, lambda x: x in muts, gate_node=lambda m: m is Rn, skip_exc_edges=True):
-                r.violation(cs, cs.loc(t.ast), "_change_container_size modifies the file (%s) before the extra-lease block was read: "
-                            "the leases that are moved are no longer the stored ones (path: %s)" % (src(cs, t.ast), w.brief()), w)
-            # (c) the header points to where the copy went
-            wp = positions(W)
-            for (U, uc) in upd:
-                try:
-                    tgt = fnm.at(U).poly(uc.args[1])
-                except Exception:
-                    tgt = None
-                r.require(tgt is not None and wp == {tgt}, cs, cs.loc(uc), "the header's extra-lease offset is set to %s but the lease block "
-                          "was written at %s: every lease beyond the fourth is looked for in the wrong place" % (src(cs, uc.args[1]), show(wp)))
-            # (d) nothing that may overlap the new block is written after the copy
-            avis, apar = explore(cfg, 0, lambda a_, l_, b_, s_: None if l_ == "exc" else 0, start=W)
-            after = {nid for (nid, _s) in avis if nid != W.id}
-            newp = next(iter(wp)) if len(wp) == 1 and None not in wp else None
-            for (Z, zc) in foreign:
-                if Z.id not in after:
-                    continue
-                zp = positions(Z)
-                ok = False
-                if newp is not None and len(zp) == 1 and None not in zp and zc.func.attr == "write" and len(zc.args) == 1:
-                    # provably disjoint: at position p at most (new position - p) bytes are written
-                    _d, zv = def_of(fnm, Z, zc.args[0])
-                    if isinstance(zv, ast.BinOp) and isinstance(zv.op, ast.Mult):
-                        sides = [zv.left, zv.right]
-                        lit = [s_ for s_ in sides if isinstance(s_, ast.Constant) and isinstance(s_.value, bytes) and len(s_.value) == 1]
-                        cnt = [s_ for s_ in sides if s_ not in lit]
-                        if len(lit) == 1 and len(cnt) == 1:
-                            cv = cnt[0]
-                            if isinstance(cv, ast.Name):
-                                _d2, cv = def_of(fnm, Z, cv)
-                            room = newp - next(iter(zp))
-                            bounds = cv.args if isinstance(cv, ast.Call) and call_name(cv) == "min" and not cv.keywords else [cv] if cv is not None else []
-                            for b_ in bounds:
-                                try:
-                                    if fnm.at(Z).poly(b_) == room:
-                                        ok = True
-                                except Exception:
-                                    pass
-                if not ok:
-                    w = witness(cfg, apar, (Z.id, 0))
-                    r.violation(cs, cs.loc(zc), "_change_container_size writes %s at %s after the extra-lease block was copied to its new "
-                                "place: when the container grows by less than the block size the two areas overlap and this write "
-                                "destroys the start of the copy (the extra-lease count and the first records) - every lease beyond "
-                                "the fourth is lost (path: %s)" % (src(cs, zc.args[0] if zc.args else zc), show(zp), w.brief()), w)
-            for Z in cfg.nodes:
-                if Z.id in after:
-                    for c in handed(Z):
-                        if call_tail(c).startswith("_read") or (call_name(c).startswith("self.") and call_tail(c) in HEADER_WRITERS):
-                            continue
-                        r.violation(cs, cs.loc(c), "_change_container_size hands the file to %s after the extra-lease block was copied: "
-                                    "it may overwrite the copy" % src(cs, c), witness(cfg, apar, (Z.id, 0)))
-        # (e) a call that modified the file completes only with the block copied and the header pointing at it
-        cn = {W.id for (W, _c, _r, _v) in copies}
-        un_ = {U.id for (U, _c) in upd}
+            if len(site.call.args) != 2 or not attr_path(site.call.args[0]):
+                raise AnalysisError("%s calls _write_extra_lease_offset in a form that is not decided: %s" % (short(f_), src(f_, site.call)))
+            fp_ = attr_path(site.call.args[0])
+            hit = [x for x in relocators if x[0] is f_]
+            if hit and hit[0][1] != fp_:
+                raise AnalysisError("%s repoints the extra-lease offset of two different files" % short(f_))
+            if not hit:
+                relocators.append((f_, fp_))
+        if not any(f_ is ccs for (f_, _p) in relocators):
+            raise AnchorVanished("_change_container_size: no self._write_extra_lease_offset(<file>, ..)")
+        # ... and nobody stores that header field on his own
+        ELO = norm_src("self.EXTRA_LEASE_OFFSET")
+        for m in msf.methods.values():
+            if m is helper:
+                continue
+            mn = FlowNorm(m)
+            for n in m.cfg().nodes:
+                for c in node_calls(n):
+                    if isinstance(c.func, ast.Attribute) and c.func.attr == "seek" and len(c.args) == 1 \
+                            and mn.norm(n, c.args[0]) == ELO:
+                        who = attr_path(c.func.value)
+                        if any(isinstance(c2.func, ast.Attribute) and c2.func.attr in ("write", "writelines")
+                               and attr_path(c2.func.value) == who for c2 in calls_in_func(m)):
+                            raise AnalysisError("%s positions the file at EXTRA_LEASE_OFFSET and writes: it stores the "
+                                                "extra-lease offset without _write_extra_lease_offset, the relocation it "
+                                                "performs is not decided" % short(m))
 
-        def tr_done(n, lab, nxt, st):
-            if lab == "exc":
-                return None
-            m_, c_, u_ = st
-            return (m_ or n in muts, c_ or n.id in cn, u_ or n.id in un_)
-        dvis, dpar = explore(cfg, (False, False, False), tr_done)
-        r.count(len(dvis))
-        for (nid, st) in sorted(dvis):
-            if cfg.nodes[nid].kind == "exit" and st[0] and not (st[1] and st[2]):
-                w = witness(cfg, dpar, (nid, st))
-                r.violation(cs, cs.loc(), "_change_container_size can return after modifying the file without %s: the extra leases are "
-                            "lost (path: %s)" % ("having copied the extra-lease block" if not st[1] else "pointing the header at the copy", w.brief()), w)
-                break
+        def relocation(cs, fp):
+            nm = cs.name
+            cfg = cs.cfg()
+            fnm = FlowNorm(cs)
+
+            def file_calls(n):
+                return [c for c in node_calls(n) if (isinstance(c.func, ast.Attribute) and attr_path(c.func.value) == fp)
+                        or any(attr_path(a) == fp for a in c.args) or any(attr_path(k.value) == fp for k in c.keywords)]
+
+            def direct(n, kinds):
+                return [c for c in file_calls(n) if isinstance(c.func, ast.Attribute) and attr_path(c.func.value) == fp and c.func.attr in kinds]
+
+            def handed(n):
+                """self.<helper>(f, ..) calls that are given the file"""
+                return [c for c in file_calls(n) if not (isinstance(c.func, ast.Attribute) and attr_path(c.func.value) == fp)]
+
+            def mutates(n):
+                return bool(direct(n, ("write", "writelines", "truncate"))) or any(not call_tail(c).startswith("_read") for c in handed(n))
+
+            # file position on entry to each node: id of the fp.seek(E) node that set it and was not disturbed since, else -1
+            def tr_pos(n, lab, nxt, st):
+                if lab == "exc":
+                    return None
+                fc = file_calls(n)
+                if not fc or all(c in direct(n, NEUTRAL) for c in fc):
+                    return st
+                sk = [c for c in direct(n, ("seek",)) if len(c.args) == 1 and not c.keywords]
+                if len(sk) == 1:
+                    inner = {id(x) for x in ast.walk(sk[0].args[0])}
+                    if all(c is sk[0] or id(c) in inner for c in fc):
+                        return n.id
+                return -1
+            pvis, ppar = explore(cfg, -1, tr_pos)
+            r.count(len(pvis))
+
+            def poly_at(n, e):
+                try:
+                    return fnm.at(n).poly(e)
+                except Exception:
+                    return None
+
+            def seeks(n):
+                """[(seek node, seek argument)] (None = unknown) that may have positioned the file on entry to n"""
+                out = []
+                for (nid, st) in sorted(pvis):
+                    if nid == n.id:
+                        out.append(None if st < 0 else (cfg.nodes[st], direct(cfg.nodes[st], ("seek",))[0].args[0]))
+                return out
+
+            def positions(n):
+                """set of polynomials (None = unknown) the file may be positioned at on entry to n"""
+                return {None if sk is None else poly_at(sk[0], sk[1]) for sk in seeks(n)}
+
+            def show(ps):
+                return ", ".join(sorted("an unknown position" if p is None else str(p) for p in ps)) or "nowhere"
+
+            # the copy: a write of bytes that an fp.read(..) of this function produced
+            copies, foreign = [], []
+            for n in cfg.nodes:
+                for c in direct(n, ("write", "writelines", "truncate")):
+                    a = c.args[0] if (c.func.attr == "write" and len(c.args) == 1 and not c.keywords) else None
+                    dn, v = def_of(fnm, n, a) if a is not None else (None, None)
+                    if isinstance(v, ast.Call) and isinstance(v.func, ast.Attribute) and v.func.attr == "read" and attr_path(v.func.value) == fp:
+                        rnode = dn if dn is not None else n
+                        copies.append((n, c, rnode, v))
+                    else:
+                        foreign.append((n, c))
+            upd = [(n, c) for n in cfg.nodes for c in self_calls(n, "_write_extra_lease_offset") if len(c.args) == 2 and attr_path(c.args[0]) == fp]
+            if not upd:
+                raise AnchorVanished("%s: no self._write_extra_lease_offset(%s, ..)" % (nm, fp))
+            for (U, uc) in upd:
+                r.site(cs, uc, "header update")
+            if not copies:
+                if cs is ccs:
+                    raise AnchorVanished("%s: no %s.write(<bytes read from %s>) - the extra-lease block is not copied" % (nm, fp, fp))
+                r.violation(cs, cs.loc(upd[0][1]), "%s repoints the header's extra-lease offset (%s) but copies no block there (no "
+                            "%s.write(<bytes read from %s>)): every lease beyond the fourth is looked for among other bytes" % (
+                                short(cs), src(cs, upd[0][1]), fp, fp))
+                return
+            OLD = P("self._read_extra_lease_offset(%s)" % fp)
+            SIZE = P("%d + self._read_num_extra_leases(%s) * self.LEASE_SIZE" % (CW, fp))
+            SIZE_POLY = Normaliser(Env(None, depth=0)).poly(parse_expr("%d + self._read_num_extra_leases(%s) * self.LEASE_SIZE" % (CW, fp)))
+            muts = [n for n in cfg.nodes if mutates(n)]
+            for (W, wc, Rn, rc) in copies:
+                r.site(cs, rc, "block read")
+                r.site(cs, wc, "block copy")
+                # (a) the block that is saved is the whole block, taken from where the header says it is
+                multi = len(file_calls(Rn)) != 1 or len(file_calls(W)) != 1
+                r.require(not multi, cs, cs.loc(rc), "the block read / copy is combined with other file accesses in one statement")
+                if multi:
+                    continue
+                try:
+                    got = str(fnm.at(Rn).poly(rc.args[0])) if len(rc.args) == 1 and not rc.keywords else "?"
+                except Exception:
+                    got = "?"
+                r.require(got == SIZE, cs, cs.loc(rc), "the saved extra-lease block is %s bytes long, not the count field plus every record "
+                          "(%d + num_extra_leases * LEASE_SIZE): the leases beyond it do not survive the move" % (
+                              src(cs, rc.args[0]) if rc.args else "all remaining", CW))
+                rp = positions(Rn)
+                r.require(bool(rp) and all(q is not None and str(q) == OLD for q in rp), cs, cs.loc(rc),
+                          "the extra-lease block is read at %s, not at the extra-lease offset recorded in the header "
+                          "(seek(self._read_extra_lease_offset(%s)) immediately before): other bytes are moved in place of the leases" % (show(rp), fp))
+                # (b) ... before anything in the file is modified
+                for (t, w) in find_path_avoiding(cfg, lambda x: x in muts, gate_node=lambda m: m is Rn, skip_exc_edges=True):
+                    r.violation(cs, cs.loc(t.ast), "%s modifies the file (%s) before the extra-lease block was read: "
+                                "the leases that are moved are no longer the stored ones (path: %s)" % (nm, src(cs, t.ast), w.brief()), w)
+                # (c) the header points to where the copy went
+                wp = positions(W)
+                for (U, uc) in upd:
+                    tgt = poly_at(U, uc.args[1])
+                    r.require(tgt is not None and wp == {tgt}, cs, cs.loc(uc), "the header's extra-lease offset is set to %s but the lease block "
+                              "was written at %s: every lease beyond the fourth is looked for in the wrong place" % (src(cs, uc.args[1]), show(wp)))
+                # (d) nothing that may overlap the new block [new, new + size) is written (or cut off) after the copy
+                avis, apar = explore(cfg, 0, lambda a_, l_, b_, s_: None if l_ == "exc" else 0, start=W)
+                after = {nid for (nid, _s) in avis if nid != W.id}
+                newp = next(iter(wp)) if len(wp) == 1 and None not in wp else None
+                endp = newp + SIZE_POLY if newp is not None else None
+                for (Z, zc) in foreign:
+                    if Z.id not in after:
+                        continue
+                    zp = positions(Z)
+                    ok = False
+                    if endp is not None and zc.func.attr == "truncate" and len(zc.args) == 1 and not zc.keywords:
+                        # the file is cut exactly at the end of the new block (a shrinking container)
+                        ok = poly_at(Z, zc.args[0]) == endp
+                    if newp is not None and len(zp) == 1 and None not in zp and zc.func.attr == "write" and len(zc.args) == 1:
+                        # provably disjoint, before the block: at position p at most (new position - p) bytes are written
+                        _d, zv = def_of(fnm, Z, zc.args[0])
+                        if isinstance(zv, ast.BinOp) and isinstance(zv.op, ast.Mult):
+                            sides = [zv.left, zv.right]
+                            lit = [s_ for s_ in sides if isinstance(s_, ast.Constant) and isinstance(s_.value, bytes) and len(s_.value) == 1]
+                            cnt = [s_ for s_ in sides if s_ not in lit]
+                            if len(lit) == 1 and len(cnt) == 1:
+                                cv = cnt[0]
+                                if isinstance(cv, ast.Name):
+                                    _d2, cv = def_of(fnm, Z, cv)
+                                room = newp - next(iter(zp))
+                                bounds = cv.args if isinstance(cv, ast.Call) and call_name(cv) == "min" and not cv.keywords else [cv] if cv is not None else []
+                                for b_ in bounds:
+                                    try:
+                                        if fnm.at(Z).poly(b_) == room:
+                                            ok = True
+                                    except Exception:
+                                        pass
+                    if not ok and endp is not None and zc.func.attr == "write":
+                        # provably disjoint, behind the block: written at max(.., new position + block size, ..) or later
+                        sks = seeks(Z)
+                        if sks and None not in sks:
+                            behind = []
+                            for (sn, se) in sks:
+                                dn_, sv = def_of(fnm, sn, se)
+                                at_ = dn_ if dn_ is not None else sn
+                                lows = sv.args if isinstance(sv, ast.Call) and call_name(sv) == "max" and not sv.keywords else [sv] if sv is not None else []
+                                behind.append(any(poly_at(at_, l_) == endp for l_ in lows))
+                            ok = all(behind)
+                    if not ok:
+                        w = witness(cfg, apar, (Z.id, 0))
+                        if zc.func.attr == "truncate":
+                            r.violation(cs, cs.loc(zc), "%s cuts the file at %s after the extra-lease block was copied to its new place, "
+                                        "which is not the end of that block (new offset + %d + num_extra_leases * LEASE_SIZE): "
+                                        "leases at the end of the block are cut off (path: %s)" % (
+                                            nm, src(cs, zc.args[0]) if zc.args else "the current position", CW, w.brief()), w)
+                            continue
+                        r.violation(cs, cs.loc(zc), "%s writes %s at %s after the extra-lease block was copied to its new "
+                                    "place: when the extra-lease offset moves by less than the block size the old and the new block "
+                                    "overlap and this write destroys part of the copy (the extra-lease count and / or lease records) "
+                                    "- leases beyond the fourth are lost (path: %s)" % (
+                                        nm, src(cs, zc.args[0] if zc.args else zc), show(zp), w.brief()), w)
+                for Z in cfg.nodes:
+                    if Z.id in after:
+                        for c in handed(Z):
+                            if call_tail(c).startswith("_read") or (call_name(c).startswith("self.") and call_tail(c) in HEADER_WRITERS):
+                                continue
+                            r.violation(cs, cs.loc(c), "%s hands the file to %s after the extra-lease block was copied: "
+                                        "it may overwrite the copy" % (nm, src(cs, c)), witness(cfg, apar, (Z.id, 0)))
+            # (e) a call that modified the file completes only with the block copied and the header pointing at it
+            cn = {W.id for (W, _c, _r, _v) in copies}
+            un_ = {U.id for (U, _c) in upd}
+
+            def tr_done(n, lab, nxt, st):
+                if lab == "exc":
+                    return None
+                m_, c_, u_ = st
+                return (m_ or n in muts, c_ or n.id in cn, u_ or n.id in un_)
+            dvis, dpar = explore(cfg, (False, False, False), tr_done)
+            r.count(len(dvis))
+            for (nid, st) in sorted(dvis):
+                if cfg.nodes[nid].kind == "exit" and st[0] and not (st[1] and st[2]):
+                    w = witness(cfg, dpar, (nid, st))
+                    r.violation(cs, cs.loc(), "%s can return after modifying the file without %s: the extra leases are "
+                                "lost (path: %s)" % (nm, "having copied the extra-lease block" if not st[1] else "pointing the header at the copy", w.brief()), w)
+                    break
+
+        for (f_, fp_) in relocators:
+            relocation(f_, fp_)
 
     # -- 11. a known renew secret is never reported as unknown --------------------------------------------------------
     with ctx.rule("C25.11", "R1/R3", "renew_lease (both containers) raises (IndexError: no such lease) only when no lease matched the "
